@@ -34,3 +34,13 @@ Theorem C06_lowering_is_a_function : forall dedup P r1 r2,
   lower_program dedup P = r1 -> lower_program dedup P = r2 -> r1 = r2.
 Proof. intros dedup P r1 r2 <- <-. reflexivity. Qed.
 Print Assumptions C06_lowering_is_a_function.
+
+(* Every HashMap / HashSet iteration of the current source tree (regenerated from /repo/src by
+   tools/sites.py on every build) has been examined and entered in Compile/SiteTable.v with the
+   reason why its order cannot reach the circuit.  A new hash-order iteration breaks this theorem. *)
+From Coq Require Import String List Bool.
+From GV Require Import Generated.Sites Compile.SiteTable.
+Theorem C06_hash_iteration_sites_discharged :
+  forallb site_discharged hash_iteration_sites = true.
+Proof. vm_compute. reflexivity. Qed.
+Print Assumptions C06_hash_iteration_sites_discharged.
